@@ -482,6 +482,11 @@ where
         for i in from..stored_to {
             if unlikely(hole_iter.peek() == Some(&&i)) {
                 hole_iter.next();
+                // A deleted slot can still carry an overlay entry (a rollback restores both):
+                // step over it, or the update iterator stays behind and later updates are missed.
+                if update_iter.peek().is_some_and(|&(&k, _)| k == i) {
+                    update_iter.next();
+                }
                 byte_off += Self::SIZE_OF_T;
                 continue;
             }
@@ -532,6 +537,11 @@ where
         for i in from..stored_to {
             if unlikely(hole_iter.peek() == Some(&&i)) {
                 hole_iter.next();
+                // A deleted slot can still carry an overlay entry (a rollback restores both):
+                // step over it, or the update iterator stays behind and later updates are missed.
+                if update_iter.peek().is_some_and(|&(&k, _)| k == i) {
+                    update_iter.next();
+                }
                 byte_off += Self::SIZE_OF_T;
                 continue;
             }
